@@ -6,6 +6,7 @@
     dependency path from a task to itself, [C16_ranked_acyclic]). *)
 From Coq Require Import List ZArith Bool Arith.
 From FF Require Import Sx TaskTree TaskTreeFacts TreeFuel.
+From FF Require Engine EngineSettle EngineDag.
 Import ListNotations.
 
 (** Accepted => valid, for every task list and every fuel. *)
@@ -62,3 +63,17 @@ Print Assumptions C16_unfixed_refuted.
 Theorem C16_fixed_rejects_witness : build_root rootless_cycle_witness = Some BCycle.
 Proof. exact fixed_rejects_witness. Qed.
 Print Assumptions C16_fixed_rejects_witness.
+
+(** The consequence the property draws from validation, end to end (C16 + C03): for every task list that
+    BuildRootNode accepts, the engine (Engine LTS, histories with commands at quiescent points that re-arm a
+    task) settles the instance at every quiescent point, and records it success only when every task of the
+    DAG ran to success or was skipped - no task of an accepted DAG is out of the scheduler's reach. *)
+Theorem C16_accepted_dag_settles : forall (t : tree), build_root t = None ->
+  forall validate ls s, Engine.run (gids t) (deps_of t) validate true true (Engine.boot) ls = Some s ->
+  EngineSettle.Quiescent (gids t) s ->
+  Engine.ins s <> Engine.IRunning /\
+  (Engine.ins s = Engine.ISuccess <-> forall x, In x (gids t) -> Engine.done (Engine.store s x) = true) /\
+  (Engine.ins s = Engine.IFailed -> exists x, In x (gids t) /\ Engine.store s x = Engine.SFailed) /\
+  (Engine.ins s = Engine.IBlocked -> exists x, In x (gids t) /\ Engine.store s x = Engine.SBlocked).
+Proof. exact EngineDag.accepted_dag_settles. Qed.
+Print Assumptions C16_accepted_dag_settles.
